@@ -176,6 +176,35 @@ impl Storage {
     /// analysis later.
     #[must_use]
     pub fn stores_as_values(self) -> Vec<RuntimeBoxedVal> {
+        #[cfg(feature = "verif-hooks")]
+        if crate::verif_hooks::active() {
+            // Same traversal as below, but with the key order owned by the hook.
+            let mut all_values: Vec<RuntimeBoxedVal> = Vec::new();
+            let mut known: Vec<_> = self.known_slots.into_iter().collect();
+            crate::verif_hooks::permute_by("storage.known_slots", &mut known, |(k, _)| {
+                (k.instruction_pointer(), k.size(), format!("{k}"))
+            });
+            let mut symbolic: Vec<_> = self.symbolic_slots.into_iter().collect();
+            crate::verif_hooks::permute_by("storage.symbolic_slots", &mut symbolic, |(k, _)| {
+                (k.instruction_pointer(), k.size(), format!("{k}"))
+            });
+            known.into_iter().chain(symbolic).for_each(|(k, vs)| {
+                all_values.extend(vs.into_iter().map(|v| {
+                    let provenance = v.provenance();
+                    RSV::new(
+                        v.instruction_pointer(),
+                        RSVD::StorageWrite {
+                            key:   k.clone(),
+                            value: v,
+                        },
+                        provenance,
+                        None,
+                    )
+                }));
+            });
+            return all_values;
+        }
+
         let mut all_values: Vec<RuntimeBoxedVal> = Vec::new();
 
         self.known_slots
